@@ -35,10 +35,10 @@ func (vc *FnVC) oblige(st *State, class, what, goal, text string) *Obligation {
 		// still count trivially true obligations? they are discharged syntactically; skip to keep counts honest
 		return nil
 	}
-	base := fmt.Sprintf("%s/%s/%s", vc.G.fnKey(vc.fn), class, what)
+	base := fmt.Sprintf("%s/%s/%s", vc.oblKey(), class, what)
 	vc.oblNames[base]++
 	name := fmt.Sprintf("%s#%d", base, vc.oblNames[base])
-	o := &Obligation{Name: name, Class: class, Unit: vc.unit, Fn: vc.G.fnKey(vc.fn), Pos: vc.posOf(vc.curInstr),
+	o := &Obligation{Name: name, Class: class, Unit: vc.unit, Fn: vc.oblKey(), Pos: vc.posOf(vc.curInstr),
 		Text: text, PC: st.pc, Goal: goal, DefsEnd: len(vc.defs), vc: vc}
 	vc.obls = append(vc.obls, o)
 	return o
@@ -766,4 +766,13 @@ func tuple(t types.Type, vs ...*Val) *Val {
 		v.Order = append(v.Order, k)
 	}
 	return v
+}
+
+// oblKey: the prefix of this unit's obligation names: the function key, or for a variant unit (refinement check of an
+// interface contract on an implementing method) the variant's own key
+func (vc *FnVC) oblKey() string {
+	if vc.unit != nil && vc.unit.FnKey != "" {
+		return unitKey(vc.unit.Pkg, vc.unit.Func)
+	}
+	return vc.G.fnKey(vc.fn)
 }
